@@ -758,7 +758,8 @@ def judge_class(c, impl, out):
                     f'{json.dumps(strip_stamps(canon_impl_journal(twin["journal"])))[:250]}')
     # is this exactly the registered defect?  The model (routing of for_all_methods, regenerated) reproduces what the
     # implementation did, and the decorator itself, given the arguments the undecorated class routes, is transparent
-    if prop and not corr and mideal == mo and md != mo:
+    nost = lambda d: (d.get('reach'), d.get('result'), [(e['callee'], e['a'], e['k']) for e in d.get('journal', [])])
+    if prop and not corr and nost(mideal) == nost(mo) and nost(md) != nost(mo):
         if c['member'] in ('static', 'classm') and c['access'] in ('inst', 'subinst'):
             EXPLAINED[case_key(c)] = 'for_all_methods_static_or_class_method_through_instance'
         elif c['member'] == 'classm' and c['access'] == 'subclass':
@@ -896,8 +897,8 @@ def run(tier, seed, replay=None):
             for c, out in zip(cand, outs):
                 sp, twin, sigs = PENDING.pop(case_key(c))
                 try:
-                    mi, _ = parse_stack_output(out, c)
-                    if 'deco_error' not in mi and not stack_props(c, model_obs(c, mi, sigs), twin, sp, sigs, count_stats=False):
+                    mi, si = parse_stack_output(out, c)      # model and documented effect, both with the idealised test
+                    if 'deco_error' not in mi and not stack_props(c, model_obs(c, mi, sigs), twin, si, sigs, count_stats=False):
                         EXPLAINED[case_key(c)] = 'require_kwargs_applied_by_call_over_a_wrapper_of_a_method'
                 except Exception:
                     pass
